@@ -80,7 +80,7 @@ def free_energy_record(rng, b):
     from scipy.constants import physical_constants
     from gemdat import Volume
     dims = [int(x) for x in rng.integers(1, 5, size=3)]
-    kind = int(rng.integers(0, 4))
+    kind = int(rng.integers(0, 5))
     counts = np.zeros(dims, dtype=np.int64)
     nvis = int(rng.integers(1, counts.size + 1))
     idx = rng.choice(counts.size, size=nvis, replace=False)
@@ -90,8 +90,12 @@ def free_energy_record(rng, b):
         vals = 2 ** rng.integers(0, 20, size=nvis)
     elif kind == 2:
         vals = rng.integers(1, 3, size=nvis) * 10 ** rng.integers(0, 6, size=nvis)
-    else:
+    elif kind == 3:
         vals = np.ones(nvis, dtype=np.int64)
+    else:
+        # dynamic range above 1e8: rarely visited voxels next to a basin visited ~1e9 times (p down to ~5e-10)
+        vals = rng.integers(1, 4, size=nvis)
+        vals[int(rng.integers(0, nvis))] = int(rng.integers(10 ** 9, 2 * 10 ** 9))
     counts.reshape(-1)[idx] = vals
     temp = float(rng.choice([1.0, 300.0, 650.0, 2000.0]))
     vol = Volume(data=counts.astype(float) if rng.random() < 0.5 else counts, lattice=Lattice.cubic(6.0))
